@@ -39,7 +39,7 @@ chk("C08", "fault_enumeration",
     "exhaustive crash-point enumeration via write hooks + directory snapshots, recovery compared with never-crashed twin", "§5 C08")
 
 chk("C09", "model_checking",
-    "Bounded-exhaustive enumeration of an input grammar against the real application at two states, through CheckTx and DeliverTx (mid-block) and Query: all byte strings of length <= 2; every prefix, single-bit flip and 00/7f/80/ff substitution of valid encodings of 10 base transactions; re-signed envelopes with every single and every ordered pair of ~90 hostile field values; a 12x11x8 Query grid incl. vm_call under the production RPC environment. Oracle: every call returns (recovered panic or dead worker = violation) and a following well-formed transfer and block succeed.",
+    "Bounded-exhaustive enumeration of an input grammar against the real application at two states, through CheckTx and DeliverTx (mid-block) and Query: all byte strings of length <= 2; every prefix, single-bit flip and 00/7f/80/ff substitution of valid encodings of 10 base transactions; re-signed envelopes with every single and every ordered pair of ~90 hostile field values; a 12x11x8 Query grid plus a vm_call grid (senders x 14 targets incl. the precompiles x payloads x heights) under the production RPC environment; delayed consequences (26 hostile-but-accepted governance option documents proposed, voted through, applied, followed by busy blocks); every single deviation of the shared history families (any panicking ABCI call). Oracle: every call returns (recovered panic or dead worker = violation) and a following well-formed transfer and block succeed.",
     "The claim is the enumerated grammar, not all byte strings; balances bounded by the harness genesis.",
     "bounded-exhaustive input-grammar enumeration on the real app, no-panic + liveness oracle", "§5 C09")
 
